@@ -416,6 +416,7 @@ func (e *Engine) fireLocal(st *State, th *Thread, op *VisOp, selCase int) {
 		e.deliver(st, th, op, nil)
 	case VLock:
 		st.objW(op.P.Obj).Cells[op.P.Off] = term.True
+		holdAdd(th, op.P)
 		e.deliver(st, th, op, nil)
 	case VUnlock:
 		if strings.Contains(op.Name, "RWMutex") {
@@ -431,8 +432,10 @@ func (e *Engine) fireLocal(st *State, th *Thread, op *VisOp, selCase int) {
 			}
 			st.objW(op.P.Obj).Cells[op.P.Off] = term.False
 		}
+		holdDel(th, op.P)
 		e.deliver(st, th, op, nil)
 	case VRLock:
+		holdAdd(th, op.P)
 		o := st.objW(op.P.Obj)
 		o.Cells[op.P.Off] = term.BVBin(term.OpAdd, o.Cells[op.P.Off].(*term.Term), term.BVC(64, 1))
 		e.deliver(st, th, op, nil)
@@ -443,6 +446,7 @@ func (e *Engine) fireLocal(st *State, th *Thread, op *VisOp, selCase int) {
 			e.fatal(st, th, "sync: RUnlock of unlocked RWMutex")
 		}
 		st.objW(op.P.Obj).Cells[op.P.Off] = term.BVC(64, uint64(n-1))
+		holdDel(th, op.P)
 		e.deliver(st, th, op, nil)
 	case VWLockAnnounce:
 		o := st.objW(op.P.Obj)
@@ -455,6 +459,7 @@ func (e *Engine) fireLocal(st *State, th *Thread, op *VisOp, selCase int) {
 		o := st.objW(op.P.Obj)
 		o.Cells[op.P.Off+2] = term.BVBin(term.OpSub, o.Cells[op.P.Off+2].(*term.Term), term.BVC(64, 1))
 		o.Cells[op.P.Off+1] = term.True
+		holdAdd(th, op.P)
 		e.deliver(st, th, op, nil)
 	case VWgAdd:
 		o := st.objW(op.P.Obj)
@@ -467,6 +472,7 @@ func (e *Engine) fireLocal(st *State, th *Thread, op *VisOp, selCase int) {
 		st.objW(op.P.Obj).Cells[op.P.Off] = n
 		e.deliver(st, th, op, nil)
 	case VWgWait:
+		holdAdd(th, op.P)
 		e.deliver(st, th, op, nil)
 	case VClose:
 		if op.Ch.Obj == 0 {
@@ -688,6 +694,9 @@ func (e *Engine) runInvisible(st *State, id ThreadID) []*State {
 					work = append(work, r.states...)
 					return
 				case stVisible:
+					if e.MergeReleases && e.fireLeftMover(s, id) {
+						continue
+					}
 					out = append(out, s)
 					return
 				case stExit:
@@ -701,6 +710,60 @@ func (e *Engine) runInvisible(st *State, id ThreadID) []*State {
 		}()
 	}
 	return out
+}
+
+// fireLeftMover executes the thread's pending operation at once when it is a pure release
+// (Unlock, RUnlock, WaitGroup.Add/Done): such operations never block, only enable other threads and
+// commute to the left of every other thread's operations (Lipton reduction; nothing in the code under
+// test observes a lock or a WaitGroup without blocking on it), so no scheduling point is needed before them.
+func (e *Engine) fireLeftMover(s *State, id ThreadID) (fired bool) {
+	ti := s.threadIdx(id)
+	th := s.Threads[ti]
+	op := th.Pending
+	if op == nil || th.Atomic > 0 {
+		return false
+	}
+	switch op.Kind {
+	case VUnlock, VRUnlock, VWgAdd:
+	default:
+		return false
+	}
+	// only with concrete synchronisation state (no data fork inside the release)
+	o := s.obj(op.P.Obj)
+	for i := 0; i < 3 && op.P.Off+i < len(o.Cells); i++ {
+		if t, ok := o.Cells[op.P.Off+i].(*term.Term); ok && !t.IsConst() {
+			return false
+		}
+		if op.Kind != VUnlock || !strings.Contains(op.Name, "RWMutex") {
+			break
+		}
+	}
+	if op.Delta != nil && !op.Delta.IsConst() {
+		return false
+	}
+	w := s.threadW(ti)
+	w.Pending = nil
+	markReleased(w, op.P)
+	e.curThread, e.curInstr = w.ID, op.Instr
+	e.addTrace(s, fmt.Sprintf("%s %s (no scheduling point)", e.threadName(id), e.opDesc(s, op, FireAlt{Case: -1})), id)
+	e.Stats.MergedReleases++
+	func() {
+		defer func() {
+			if r := recover(); r != nil {
+				if sig, ok := r.(goPanicSig); ok {
+					val := sig.val
+					if val == nil {
+						val = e.errorIface(sig.msg)
+					}
+					e.startPanic(s, w, val, sig.msg, e.pos(op.Instr))
+					return
+				}
+				panic(r)
+			}
+		}()
+		e.fireLocal(s, w, op, -1)
+	}()
+	return true
 }
 
 func (e *Engine) threadExit(st *State, th *Thread) {
